@@ -3,6 +3,7 @@ package harness
 import (
 	"context"
 	"fmt"
+	"slices"
 	"sort"
 	"time"
 
@@ -20,11 +21,11 @@ import (
 
 func init() {
 	Register(&Scenario{
-		Name: "conformance", Props: []string{"C11"}, CrashTo: "",
+		Name: "conformance", Knobs: true, Props: []string{"C11"}, CrashTo: "C05", Also: map[string]int{"C05": 1},
 		Horizon: 3 * time.Hour, MaxSteps: 2000000, Weight: 1, Main: conformMain,
 	})
 	Register(&Scenario{
-		Name: "upload", Props: []string{"C16"}, CrashTo: "",
+		Name: "upload", Knobs: true, Props: []string{"C16"}, CrashTo: "C05", Also: map[string]int{"C05": 1},
 		Horizon: 3 * time.Hour, MaxSteps: 2000000, Weight: 1, Main: uploadMain,
 	})
 }
@@ -91,6 +92,9 @@ func conformMain(rc *RunCtx) {
 		if st.Bool(1, 2) {
 			cfg.ExtP = 7000 + i
 		}
+		if cfg.Fast && len(cfg.AllowedFast) == 0 && st.Bool(1, 3) {
+			cfg.AllowedFast = append(cfg.AllowedFast, spec.DrawPiece(st))
+		}
 		p := w.NewPeer(spec, cfg)
 		if st.Bool(1, 2) {
 			p.Connect()
@@ -121,6 +125,45 @@ func conformMain(rc *RunCtx) {
 			}
 		})
 	}
+	if st.Bool(1, 2) {
+		// step monitor: judged by the system's own view, a request joins a
+		// peer's outstanding list only while that peer object says
+		// "unchoked" or has allowed-fast the piece.  (The wire-level rule
+		// in RefPeer.conform cannot see a request issued between the
+		// handling of a choke and the next quiescent point.)
+		type pstate struct {
+			choked bool
+			out    map[uint32]bool
+		}
+		prev := map[*peer.Peer]*pstate{}
+		cpp := uint32(spec.ChunksPerPiece())
+		simrt.OnStep(func() {
+			if rc.Failed() {
+				return
+			}
+			for _, p := range t.SimPeers() {
+				ps := prev[p]
+				if ps == nil {
+					ps = &pstate{out: map[uint32]bool{}}
+					prev[p] = ps
+				}
+				choked := !p.SimUnchoked()
+				out := p.SimOutstanding()
+				if choked && ps.choked {
+					for _, c := range out {
+						if !ps.out[c] && !slices.Contains(p.SimFast(), c/cpp) {
+							rc.Fail("C11", "request-while-choked", "own-state", "a request for chunk %d (piece %d) joined the outstanding requests of a peer that the system itself had recorded as choking it, and that had not allowed-fast the piece", c, c/cpp)
+						}
+					}
+				}
+				ps.choked = choked
+				clear(ps.out)
+				for _, c := range out {
+					ps.out[c] = true
+				}
+			}
+		})
+	}
 	nsteps := 3 + st.Choice(10)
 	for k := 0; k < nsteps && !rc.Failed(); k++ {
 		simrt.Sleep(time.Duration(200+st.Choice(6000)) * time.Millisecond)
@@ -133,7 +176,7 @@ func conformMain(rc *RunCtx) {
 		if len(live) > 0 {
 			rc.Progress()
 		}
-		switch ev := st.Weighted(3, 2, 3, 2, 2, 1, 1); {
+		switch ev := st.Weighted(3, 2, 3, 2, 2, 1, 1, 2, 2); {
 		case ev == 1 && len(live) > 0:
 			p := live[st.Choice(len(live))]
 			simrt.Fault("peer-disconnect")
@@ -167,6 +210,53 @@ func conformMain(rc *RunCtx) {
 			t.Pieces.Expire(0, nil, func(i uint32) { t.Have(i, false) })
 		case ev == 6:
 			simrt.Sleep(time.Duration(20+st.Choice(60)) * time.Second)
+		case ev == 8 && len(live) > 0:
+			// an aimed choke: it is held in the network and released at the
+			// step at which a command of the scheduler (computed while the
+			// peer was still unchoked) sits in that peer's queue
+			p := live[st.Choice(len(live))]
+			if p.ChokingSys || p.conn == nil {
+				break
+			}
+			var sp *peer.Peer
+			for _, q := range t.SimPeers() {
+				if string(q.Id) == string(p.ID) {
+					sp = q
+				}
+			}
+			if sp == nil {
+				break
+			}
+			simrt.Fault("peer-choke-aimed")
+			rc.Tracef("%s chokes, aimed at a pending command", p.Cfg.Name)
+			c := p.conn
+			c.Stall()
+			p.Choke()
+			if simrt.AwaitStep(func() bool { return sp.SimCommands() > 0 }, time.Duration(1+st.Choice(8))*time.Second) {
+				simrt.Probe("choke-released-with-a-command-pending")
+			}
+			c.Unstall()
+			simrt.Sleep(time.Duration(st.Choice(3000)) * time.Millisecond)
+			if !p.Closed {
+				p.Unchoke()
+			}
+		case ev == 7 && len(live) > 0:
+			// a peer that chokes and unchokes in quick succession, while the
+			// scheduler's commands for it are under way
+			p := live[st.Choice(len(live))]
+			simrt.Fault("peer-choke-flapping")
+			rc.Tracef("%s flaps between choke and unchoke", p.Cfg.Name)
+			for n := 3 + st.Choice(10); n > 0 && !p.Closed; n-- {
+				if p.ChokingSys {
+					p.Unchoke()
+				} else {
+					p.Choke()
+				}
+				simrt.Sleep(time.Duration(st.Choice(120)) * time.Millisecond)
+			}
+			if p.ChokingSys && !p.Closed {
+				p.Unchoke()
+			}
 		}
 	}
 	if rc.Failed() || !st.Bool(1, 2) {
@@ -356,7 +446,7 @@ func uploadMain(rc *RunCtx) {
 			Have: func(int) bool { return false }, Advertise: st.Choice(2), Reqq: -1, MetadataSize: -1, UnchokeAfter: -1,
 		}
 		flood := st.Bool(1, 6)
-		stopRead := st.Bool(1, 8)
+		stopRead := st.Bool(1, 4)
 		nops := 5 + st.Choice(25)
 		p := w.NewPeer(spec, cfg)
 		p.Connect()
@@ -424,6 +514,19 @@ func uploadMain(rc *RunCtx) {
 					if stopRead {
 						simrt.Fault("leecher-stops-reading")
 						p.Cfg.StopRead = true
+						if st.Bool(1, 2) {
+							// keep the system's write queue for us full, then
+							// make it want to choke us while it cannot write
+							for k := 0; k < 40+st.Choice(100); k++ {
+								i := pick()
+								p.Request(uint32(i), uint32(st.Choice(spec.Geo.Chunks(i)))*chunkSize, chunkSize)
+							}
+							simrt.Sleep(time.Duration(2+st.Choice(40)) * time.Second)
+							simrt.Fault("not-interested-while-not-reading")
+							p.Send(refwire.NotInterested{})
+							simrt.Sleep(time.Duration(1+st.Choice(5)) * time.Second)
+							p.Send(refwire.Interested{})
+						}
 						simrt.Sleep(time.Duration(5+st.Choice(90)) * time.Second)
 						p.Cfg.StopRead = false
 						p.wake.Wake()
